@@ -209,12 +209,20 @@ LIB_DOC['pandas.Series.apply(f)'] = 's.apply(f): the Series of f(element) for ev
 LIB_DOC['pandas.Series.sum() of booleans'] = 'number of True elements'
 
 
-class SRowsSel(Model):
-    """data[mask]"""
+class SRowsSel(SRows):
+    """data[mask]: the rows of `frame` where the mask holds -- a frame of its own (same base rows, same labels, presence flags
+    narrowed), whose .index is the labels of those rows"""
     pytype = 'DataFrame'
 
     def __init__(self, frame, mask):
+        m = mask.at
+        SRows.__init__(self, frame.n, frame.cols, frame.label,
+                       keep=memo1(lambda i: z3.And(frame.present(i), to_bool_term(m(i)))), positional=frame.positional)
+        self.kinds = dict(frame.kinds)
+        self.fid = frame.fid            # the labels it hands out are labels of the frame it was taken from
         self.frame, self.mask = frame, mask
+        if hasattr(frame, 'index_id'):
+            self.index_id = frame.index_id
 
     def a_index(self, ctx):
         fr, m = self.frame, self.mask.at
